@@ -58,6 +58,13 @@ def reset_class_state():
                 setattr(cls, attr, {})
     GlobalContextMgr.contexts = {}
     GlobalContextMgr.name_seq = 0
+    try:
+        from custom_components.pyscript.decorators.webhook import WebhookTriggerDecorator
+
+        if hasattr(WebhookTriggerDecorator, "_started"):
+            WebhookTriggerDecorator._started = {}
+    except ImportError:
+        pass
 
 
 class LogCapture(logging.Handler):
